@@ -790,7 +790,7 @@ fn tick(kind: u8, dir: u8, slot: u8) -> Option<i32> {
     }
     if st.calls == st.fail_at && !st.failed {
         st.failed = true;
-        if st.fail_errno == ESTALE && dir != NONE && slot != NONE && (dir as usize) < ND && (slot as usize) < NS {
+        if (st.fail_errno == ESTALE || st.fail_errno == ENOENT) && dir != NONE && slot != NONE && (dir as usize) < ND && (slot as usize) < NS {
             // a stale handle means the object is gone on the server: the name no longer resolves
             let cur = st.dir[dir as usize].slot[slot as usize];
             if cur != NONE && kind != C_RENAME && kind != C_LINK {
